@@ -563,8 +563,72 @@ class CallMixin(ExprMixin):
         for fn_, ft in (fields or {}).items():
             st.heap[exc.oid][fn_] = self.make_symbolic(st, ft, f"exc_{fn_}")
 
+    def apply_higher_order(self, st: State, ctx: Ctx, fi: FuncInfo, c: Contract, args: list, kwargs: dict, line: int):
+        """Contract of a function that calls a callback parameter (SelectorBaseTransport._retry):
+        the callback is invoked, possibly several times; every invocation that asks to retry (`retry_on` classes) is
+        effect-free (checked below on the actual callback), exactly one invocation returns normally or fails otherwise.
+        The ghost accounting of the contract (clock, waited time, budget) is assumed from its clauses."""
+        ho = c.env["higher_order"]
+        frame = self.new_frame(st, None, "contract:" + fi.qualname)
+        self.bind_params(st, ctx, fi, frame, args, kwargs, None)
+        cb = st.heap[frame.oid][ho["param"]]
+        sctx = self.spec_ctx(fi, frame, None, {})
+        for cl in c.requires:
+            self.oblige(st, self.eval_clause(cl, st, sctx), "call-pre", line, f"{fi.qualname}:{cl.name}", cl.tags)
+            st.assume(self.eval_clause(cl, st, sctx))
+        old = st.clone()
+        sctx = self.spec_ctx(fi, frame, (old, frame), {})
+        for p in c.modifies:
+            self.havoc_path(st, sctx, p)
+        retry_on = [self.class_by_name(n) for n in ho["retry_on"]]
+        results: list[tuple[State, Any]] = []
+        # (1) the function's own failures
+        for cname in ho["own_raises"]:
+            s2 = st.clone()
+            exc = self.make_exc(s2, self.class_by_name(cname), ())
+            ectx = self.spec_ctx(fi, frame, (old, frame), {"exc": exc})
+            for cl in c.raises[cname]:
+                s2.assume(self.eval_clause(cl, s2, ectx))
+            for g in ho["callback_failed_flags"]:
+                s2.assume(self.eval_clause(Clause("own", g + " == old(" + g + ")"), s2, ectx))
+            if self.feasible(s2):
+                results.append((s2, Raise(exc)))
+        # (2) one decisive invocation of the real callback in the post-state of the accounting
+        res_rest = self.make_symbolic(st, ho["result_rest"], "ret_rest")
+        placeholder = smt.fresh("cb_result", smt.Obj)
+        nctx = self.spec_ctx(fi, frame, (old, frame), {"result": (placeholder, res_rest)})
+        for cl in c.ensures:
+            st.assume(self.eval_clause(cl, st, nctx))
+        before = st.clone()
+        for s2, r in self.call_value(st, ctx, cb, [], {}, line):
+            if isinstance(r, Raise):
+                rcls = META[r.exc.oid].cls
+                if any(self.is_subclass(rcls, rc) for rc in retry_on):
+                    # a retry request: must have had no effect on the ghost state that carries the properties
+                    for gname in ho["effect_free_ghosts"]:
+                        a, b = s2.heap[s2.ghost][gname], before.heap[before.ghost][gname]
+                        self.oblige(s2, ops.values_equal(s2, a, b), "retry-effect-free", line, f"{fi.name}:{gname}-unchanged-when-the-callback-would-block")
+                    continue
+                results.append((s2, r))
+            else:
+                self.apply_call_hints(s2, ctx, fi, old, (r, res_rest), line)
+                results.append((s2, (r, res_rest)))
+        return results
+
     def apply_contract(self, st: State, ctx: Ctx, fi: FuncInfo, c: Contract, args: list, kwargs: dict, line: int):
         args = [self.strip_opt(st, a) for a in args]
+        # an iterable-of-chunks parameter given a producer generator: the callee consumes it entirely
+        for i, a in enumerate(args):
+            if isinstance(a, Ref) and META[a.oid].kind == "generator" and st.heap[a.oid]["$c"].gen == "producer" and "bytesseq" in c.params.values():
+                out = []
+                for s2, seq in self.drain_producer(st, ctx, a, line):
+                    if isinstance(seq, Raise):
+                        out.append((s2, seq))
+                    else:
+                        out.extend(self.apply_contract(s2, ctx, fi, c, args[:i] + [seq] + args[i + 1:], kwargs, line))
+                return out
+        if c.env.get("higher_order") and not (ctx.top and ctx.func is fi):
+            return self.apply_higher_order(st, ctx, fi, c, args, kwargs, line)
         frame = self.new_frame(st, None, "contract:" + fi.qualname)
         self.bind_params(st, ctx, fi, frame, args, kwargs, None)
         sctx = self.spec_ctx(fi, frame, None, {})
